@@ -331,7 +331,7 @@ def maximally_mixed_state(d:int):
         ret (np.ndarray): the maximally mixed state, `ret.ndim=2` of shape $(d^2,d^2)$
     '''
     assert d>=1
-    ret = np.eye(d*d) / d*d
+    ret = np.eye(d*d) / (d*d)
     return ret
 
 
@@ -434,7 +434,7 @@ def maximally_coherent_state(d:int, return_dm:bool=False):
     '''
     assert d>=1
     if return_dm:
-        ret = np.eye(d, dtype=np.float64) / d
+        ret = np.ones((d,d), dtype=np.float64) / d #projector onto the maximally coherent ket
     else:
         ret = np.ones(d, dtype=np.float64) / np.sqrt(d)
     return ret
